@@ -83,7 +83,7 @@ def pointwise_model(S):
     S.canary("output-ignores-the-input", z3.And([zreal(t3.at([(r2,), (c,)])) == zreal(t1.at([(z3.IntVal(0),), (c,)])) for c in range(2)]))
 
 
-@scenario("C08", [NETS["FCN"][0] + ".forward", NETS["DeepRitzNet"][0] + ".forward"], configs=["FCN", "DeepRitzNet"], bounded=BOUND)
+@scenario("C08", [NETS[k][0] + ".forward" for k in ("FCN", "DeepRitzNet", "Harmonic_FCN", "QRES")], configs=["FCN", "DeepRitzNet", "Harmonic_FCN", "QRES"], bounded=BOUND)
 def several_batch_axes(S):
     """models that accept several batch axes: arranging the rows into [B, n] gives the rows of the flat batch"""
     net, xt, tx, u = build(S, S.cfg)
